@@ -995,6 +995,17 @@ def external(I, e, name, spec):
     elif res == 'exception':
         from .k3 import new_sym_exc
         r = new_sym_exc(I, fresh_name('made_exc'))
+    elif res == 'dict-copy-of-arg0':
+        # Cls(mapping) for a dict subclass: a NEW object whose own dict layer has the mapping's
+        # own items and no other attribute
+        src = args[0]
+        own = src.fields['own']
+        from .values import VMap, REC_FIELDS
+        cp = VMap(own.kty, own.vty, own.has, own.val) if isinstance(own, VMap) else own
+        r = VRec(src.cls, {'own': cp})
+        for fld, ty in REC_FIELDS.get(src.cls, {}).items():
+            if fld != 'own' and ty.startswith('opt['):
+                r.fields[fld] = NONE
     elif res.startswith('rec:'):
         r = VRec('ext::' + res[4:], {})
     else:
